@@ -107,6 +107,16 @@ def run(chk, facts, tier, only=None):
                            f"{which}: the pair ({c1}, {c2}) is decided as `{got}` (arm at line {final['ln']}), the spec's rules give `{want}`",
                            ok_detail=f"{got}")
         chk.floor(f"{which}: constructor pairs decided", npairs, 700)
+        # ... and the table decides alone: a rejection made up anywhere else in the function (a pre-check before the pair is assumed, a
+        # shortcut in the Var/Knot prologue) is a second decision procedure that the simulation above does not see
+        if not t.collecting:
+            inside = set(id(x) for x in walk(t.main))
+            stray = [x for x in walk(t.fn["body"]) if x.get("k") == "call" and re.search(r"error::Error::(msg|subtype)$", callee(x) or "") and id(x) not in inside]
+            chk.expect(not stray, f"{which}:only-the-rule-table-rejects",
+                       f"{which} constructs a rejection outside its rule table (line {stray[0].get('ln') if stray else ''}): pairs are then refused by a test "
+                       f"that is not one of the spec's rules — e.g. a head-constructor pre-check in the Var/Knot prologue that forgets `nat <: int` makes "
+                       f"`N <: int` (with `type N = nat`) fail while `nat <: int` holds, so the verdict depends on whether a type is named",
+                       where=f"{t.fn['span']['file']}:{stray[0].get('ln') if stray else ''}", ok_detail="every Error::msg / Error::subtype lies in an arm of the table")
         # the (_, Opt) constituent rule: guard excludes exactly null/reserved/opt (spec: "not (null <: <datatype>)")
         for r in t.rows:
             g = r["guard"]
